@@ -123,3 +123,29 @@ Example C03_built_negation_nonvacuous :
   exists t r ext, build e = BuildOk t r /\ rep_free t = true /\ may_end_sep t = false /\ into_alternatives t = [t] /\
                   is_exhaustive t = Ok Always /\ not_partition t = Ok (Some ext, None).
 Proof. cbv zeta. do 3 eexists. repeat split; vm_compute; reflexivity. Qed.
+
+From WaxProofs Require Import NegationRepFree.
+
+(* every negated glob that builds, has no repetition and cannot end with a separator, whatever its shape: alternations at the top are split
+   into alternatives, each of which inherits what the rule checker guarantees of the whole *)
+Theorem C03_negation_of_any_built_glob_without_repetitions_is_a_filter : forall orbit e t r ext nxt exh nonexh,
+  build e = BuildOk t r -> rep_free t = true -> may_end_sep t = false ->
+  not_partition t = Ok (ext, nxt) -> decides orbit exh ext -> decides orbit nonexh nxt -> opt_match exh [] = false ->
+  (forall q, matched exh nonexh q = true <-> Lang orbit t (join_path q)) /\
+  forall ls mind maxd root, names_valid root ->
+    yields (walk mind maxd (ls ++ [nl exh nonexh]) root) =
+    filter (fun q => negb (matched exh nonexh q)) (yields (walk mind maxd ls root)).
+Proof. exact negation_of_any_built_rep_free_glob. Qed.
+Print Assumptions C03_negation_of_any_built_glob_without_repetitions_is_a_filter.
+
+(* and the negation of a combinator of such globs: not(any([...])) *)
+Theorem C03_negation_of_a_combinator_of_built_globs_without_repetitions_is_a_filter : forall orbit es ts t ext nxt exh nonexh,
+  Forall2 (fun e t0 => exists r, build e = BuildOk t0 r /\ is_cat t0 = true /\ rep_free t0 = true /\ may_end_sep t0 = false) es ts -> ts <> [] ->
+  any_tree ts = Ok t ->
+  not_partition t = Ok (ext, nxt) -> decides orbit exh ext -> decides orbit nonexh nxt -> opt_match exh [] = false ->
+  (forall q, matched exh nonexh q = true <-> Lang orbit t (join_path q)) /\
+  forall ls mind maxd root, names_valid root ->
+    yields (walk mind maxd (ls ++ [nl exh nonexh]) root) =
+    filter (fun q => negb (matched exh nonexh q)) (yields (walk mind maxd ls root)).
+Proof. exact negation_of_any_of_built_rep_free_globs. Qed.
+Print Assumptions C03_negation_of_a_combinator_of_built_globs_without_repetitions_is_a_filter.
